@@ -67,6 +67,8 @@ class ImgFn:
         self.params = {p['id']: p for p in f['params']}
         self.loops = {}        # decl id -> dict(name, atom, bound Poly, node, depth)
         self.locals = {}       # decl id -> ('ptr', base, offsetPoly, unit) | Poly
+        self.mins = {}         # min atom -> (Poly, Poly)
+        self.carry = {}        # carry atom -> dict(var, loop, amount)
         self.order = []
 
     def atom_of(self, did):
@@ -104,15 +106,55 @@ class ImgFn:
             raise Undecided('loop condition of `%s` is not `%s < bound`' % (name, name))
         bound = -co[1] + 1            # v + rest <= 0  -> v <= -rest  -> v in [0, -rest] -> count -rest+1
         incn = tu.strip(inc) if isinstance(inc, dict) and inc.get('kind') else None
-        ok = False
+        step = None
         if incn is not None and incn.get('kind') == 'UnaryOperator' and incn.get('opcode') == '++':
-            ok = tu.ref_decl(tu.kids(incn)[0]) == iv['id']
+            if tu.ref_decl(tu.kids(incn)[0]) == iv['id']:
+                step = Poly.const(1)
         elif incn is not None and incn.get('kind') == 'CompoundAssignOperator' and incn.get('opcode') == '+=':
-            ok = tu.ref_decl(tu.kids(incn)[0]) == iv['id'] and tu.sd(tu.strip(tu.kids(incn)[1])).get('cv') == '1'
-        if not ok:
-            raise Undecided('loop `%s` does not step by +1' % name)
-        self.loops[iv['id']]['count'] = bound
+            if tu.ref_decl(tu.kids(incn)[0]) == iv['id']:
+                step = self.ev().ev(tu.kids(incn)[1])
+        if step is None or step.const_value() is None or step.const_value() < 1:
+            raise Undecided('loop `%s` does not advance by a positive constant' % name)
+        self.loops[iv['id']]['step'] = step.const_value()
+        self.loops[iv['id']]['bound'] = bound
+        # number of iterations of a unit-step loop; a strided loop (strip mining) is interpreted with its inner loop
+        self.loops[iv['id']]['count'] = bound if step.const_value() == 1 else None
         return iv['id'], body
+
+    def min_form(self, e):
+        """Poly atom for min(a, b) written as `a < b ? a : b` (any orientation) or std::min(a, b)"""
+        tu = self.tu
+        x = tu.strip(e)
+        if x is None:
+            return None
+        a = b = None
+        if x.get('kind') == 'ConditionalOperator':
+            c, t, f_ = tu.kids(x)
+            c = tu.strip(c)
+            if c is None or c.get('kind') != 'BinaryOperator' or c.get('opcode') not in ('<', '<=', '>', '>='):
+                return None
+            l, r = (self.ev().ev(k) for k in tu.kids(c))
+            tv, fv = self.ev().ev(t), self.ev().ev(f_)
+            if None in (l, r, tv, fv):
+                return None
+            small, big = (l, r) if c['opcode'] in ('<', '<=') else (r, l)     # condition says small < big
+            if tv == small and fv == big:
+                a, b = small, big
+            else:
+                return None
+        elif x.get('kind') == 'CallExpr' and tu.sd(x).get('q') == 'std::min':
+            args = tu.call_parts(x)[2]
+            if len(args) != 2:
+                return None
+            a, b = self.ev().ev(args[0]), self.ev().ev(args[1])
+            if a is None or b is None:
+                return None
+        else:
+            return None
+        ka, kb = sorted((a, b), key=lambda p_: repr(p_.key()))
+        atom = ('min', ka.key(), kb.key())
+        self.mins[atom] = (ka, kb)
+        return Poly.atom(atom)
 
     def ptr_value(self, e):
         """('ptr', base param name, offset Poly in units of `unit` bytes, unit)"""
@@ -248,9 +290,40 @@ def check_write_image(ctx, tu, f):
             k = n.get('kind')
             if k == 'ForStmt':
                 vid, b = img.parse_loop(n, len(stack))
-                # the init / cond / inc were handled; descend into the body only
+                # pointers advanced inside the body (`in += k;`): their value at the start of an iteration is the value
+                # before the loop plus what earlier iterations added -- a symbol resolved after the body is known
+                bumped = {}
+                for x in tu.walk(b):
+                    if x.get('kind') in ('CompoundAssignOperator', 'UnaryOperator', 'BinaryOperator') and \
+                            x.get('opcode') in ('+=', '-=', '++', '--', '='):
+                        did = tu.ref_decl(tu.kids(x)[0])
+                        if did is not None and isinstance(img.locals.get(did), tuple) and img.locals[did][0] == 'ptr':
+                            bumped.setdefault(did, []).append(x)
+                for did, xs in bumped.items():
+                    if len(xs) != 1 or xs[0].get('opcode') != '+=' or tu.par(xs[0]) is None or tu.par(xs[0]).get('id') != b.get('id'):
+                        raise Undecided('pointer `%s` is modified inside a loop in a way that is not modelled' % tu.show(tu.kids(xs[0])[0]))
+                    later = False
+                    seen_bump = False
+                    for c in b.get('inner', ()):
+                        if not (isinstance(c, dict) and c.get('kind')):
+                            continue
+                        if c.get('id') == xs[0]['id']:
+                            seen_bump = True
+                        elif seen_bump and any(tu.ref_decl(y) == did for y in tu.walk(c) if y.get('kind') == 'DeclRefExpr'):
+                            later = True
+                    if later:
+                        raise Undecided('pointer advanced in the middle of a loop body')
+                    atom = ('carry', did, vid)
+                    pv = img.locals[did]
+                    img.carry[atom] = {'var': did, 'loop': vid, 'node': xs[0], 'amount': None}
+                    img.locals[did] = ('ptr', pv[1], pv[2] + Poly.atom(atom), pv[3])
                 walk(b, stack + [vid])
+                for did, xs in bumped.items():
+                    atom = ('carry', did, vid)
+                    img.carry[atom]['amount'] = img.ev().ev(tu.kids(xs[0])[1])
                 return
+            if k == 'CompoundAssignOperator' and isinstance(img.locals.get(tu.ref_decl(tu.kids(n)[0])), tuple):
+                return      # pointer bump, accounted for by the enclosing loop
             if k in ('WhileStmt', 'DoStmt', 'CXXForRangeStmt', 'GotoStmt'):
                 raise Undecided('loop construct `%s`' % k)
             if k == 'DeclStmt':
@@ -265,8 +338,16 @@ def check_write_image(ctx, tu, f):
                                 img.locals[vd['id']] = ('ptr', '@' + vd.get('name', 'buf'), Poly.const(0), pv[2] if len(pv) > 2 else 1)
                         else:
                             v = img.ev().ev(init)
+                            if v is None:
+                                v = img.min_form(init)
                             if v is not None:
                                 img.locals[vd['id']] = v
+                    elif isinstance(vd, dict) and vd.get('kind') == 'VarDecl':
+                        m = re.match(r'^(.*?)\s*\[(\d+)\]$', vd.get('type', {}).get('qualType', ''))
+                        esz = type_size(tu, re.sub(r'^const\s+', '', m.group(1))) if m else None
+                        if m and esz:
+                            allocs.append((vd, ('array', Poly.const(int(m.group(2)) * esz), esz), list(stack)))
+                            img.locals[vd['id']] = ('ptr', '@' + vd.get('name', 'buf'), Poly.const(0), esz)
                 return
             if k == 'BinaryOperator' and n.get('opcode') == '=':
                 l, r = tu.kids(n)
@@ -309,6 +390,61 @@ def check_write_image(ctx, tu, f):
     def rng(stack):
         return [(('sym', loops[v]['name']), loops[v]['count']) for v in stack]
 
+    def span_of(vid, xid):
+        """is (v, x) a strip-mined pair: for (v = 0; v < B; v += S) for (x = 0; x < min(B - v, S); x++)"""
+        lv, lx = loops[vid], loops[xid]
+        if lv.get('step', 1) <= 1 or lx.get('step', 1) != 1 or lx['count'] is None:
+            return None
+        at = [a for a in lx['count'].atoms() if isinstance(a, tuple) and a[0] == 'min']
+        if len(at) != 1 or lx['count'] != Poly.atom(at[0]):
+            return None
+        a, b = img.mins[at[0]]
+        want = {(lv['bound'] - Poly.atom(('sym', lv['name']))).key(), Poly.const(lv['step']).key()}
+        if {a.key(), b.key()} != want:
+            return None
+        return at[0]
+
+    def loop_nest(stack):
+        if len(stack) == 3:
+            y, x, c = stack
+            if any(loops[v].get('step', 1) != 1 for v in stack):
+                raise Undecided('strided loop without a span loop inside it')
+            return {'y': ('sym', loops[y]['name']), 'v': None, 'x': ('sym', loops[x]['name']), 'c': ('sym', loops[c]['name']),
+                    'ycount': loops[y]['count'], 'xcount': loops[x]['count'], 'ccount': loops[c]['count'], 'span': None}
+        if len(stack) == 4:
+            y, v, x, c = stack
+            sp = span_of(v, x)
+            if sp is None or loops[y].get('step', 1) != 1 or loops[c].get('step', 1) != 1:
+                raise Undecided('four nested loops that are not y / span start / column in span / component')
+            return {'y': ('sym', loops[y]['name']), 'v': ('sym', loops[v]['name']), 'x': ('sym', loops[x]['name']),
+                    'c': ('sym', loops[c]['name']), 'ycount': loops[y]['count'], 'xcount': loops[v]['bound'],
+                    'ccount': loops[c]['count'], 'span': sp, 'vid': v}
+        raise Undecided('access is not inside a y / x / c loop nest')
+
+    def resolve_carry(total):
+        """replace `pointer value carried into iteration` symbols: a pointer advanced by A*n at the end of every span
+        of n = min(B - v, S) pixels has advanced A*v when the span starting at v begins (all earlier spans are full)"""
+        for atom in [a for a in total.atoms() if isinstance(a, tuple) and a[0] == 'carry']:
+            info = img.carry[atom]
+            lv = loops[info['loop']]
+            amt = info['amount']
+            if amt is None:
+                raise Undecided('amount of the pointer advance `%s` has no normal form' % tu.show(info['node']))
+            mins = [a for a in amt.atoms() if isinstance(a, tuple) and a[0] == 'min']
+            va_ = Poly.atom(('sym', lv['name']))
+            if lv.get('step', 1) == 1 and not mins and amt.const_value() is not None:
+                total = total.subst(atom, va_ * amt.const_value())          # p += k in a unit-step loop
+                continue
+            if len(mins) != 1:
+                raise Undecided('pointer advance `%s` is not a multiple of the span length' % tu.show(info['node']))
+            co = amt.coeff(mins[0])
+            a, b = img.mins[mins[0]]
+            want = {(lv['bound'] - va_).key(), Poly.const(lv['step']).key()}
+            if co is None or co[1] != Poly() or co[0].const_value() is None or {a.key(), b.key()} != want:
+                raise Undecided('pointer advance `%s` is not a multiple of the span length' % tu.show(info['node']))
+            total = total.subst(atom, va_ * co[0].const_value())
+        return total
+
     # ---- reads of the pixel array
     src_reads = [r for r in reads if r[0][0] == 'ptr' and r[0][1] in pix_param]
     if not src_reads:
@@ -323,12 +459,32 @@ def check_write_image(ctx, tu, f):
             continue
         per_pixel = psz // unit                # components per pixel as laid out in memory
         ranges = rng(stack)
-        if len(stack) != 3:
-            ctx.undecided(R, inst, 'pixel read is not inside a y/x/c loop nest', tu.loc(n))
+        try:
+            total = resolve_carry(total)
+            nest = loop_nest(stack)
+        except Undecided as u:
+            ctx.undecided(R, inst, str(u), tu.loc(n))
             good = False
             continue
-        ya, xa, ca = (('sym', loops[v]['name']) for v in stack)
-        ycount, xcount, ccount = (loops[v]['count'] for v in stack)
+        ya, va, xa, ca = nest['y'], nest['v'], nest['x'], nest['c']
+        ycount, xcount, ccount = nest['ycount'], nest['xcount'], nest['ccount']
+        if va is not None:
+            # strip-mined column loop: logical column = v + x; both must advance the source by one pixel
+            cv_ = total.coeff(va)
+            cx_ = total.coeff(xa)
+            if cv_ is None or cx_ is None:
+                ctx.undecided(R, inst, 'source index `%s` is not linear in the span variables' % show(total), tu.loc(n))
+                good = False
+                continue
+            if cv_[0] != cx_[0]:
+                ctx.violation(R, inst, 'source index `%s`: inside a span the source advances %s component(s) per pixel, from span to '
+                              'span %s component(s) per pixel; a %s pixel holds %d %s component(s), so from the second span on '
+                              'the wrong pixels are read' % (show(total), show(cx_[0]), show(cv_[0]), pix_t, psz // unit, comp_t),
+                              tu.loc(n), key=keyb + 'pixel-stride')
+                good = False
+                continue
+            # fold the span start into the column variable
+            total = total.subst(va, Poly.const(0))
         if ycount != sy or xcount != sx or ccount != Poly.const(N):
             ctx.violation(R, inst, 'the loops run over %s x %s x %s; required sizeY x sizeX x N_COMP = %s x %s x %d'
                           % (show(ycount), show(xcount), show(ccount), show(sy), show(sx), N), tu.loc(n), key=keyb + 'loop-range')
@@ -417,28 +573,48 @@ def check_write_image(ctx, tu, f):
     vd, pv, _ = allocs[0]
     abytes = pv[1]
     want_bytes = sx * (N * csz)
-    if abytes != want_bytes:
-        ctx.violation(R, inst, 'the row buffer is allocated with `%s` bytes; a row needs N_COMP*sizeX*sizeof(COMP_T) = %s'
-                      % (show(abytes), show(want_bytes)), tu.loc(vd['id']) if False else tu.fn_loc(f), key=keyb + 'row-buffer-size')
-        good = False
     bufname = '@' + vd.get('name', 'buf')
     dst = [w for w in writes if w[0][0] == 'ptr' and w[0][1] == bufname]
     if len(dst) != 1:
         ctx.undecided(R, inst, 'expected one store into the row buffer, found %d' % len(dst), tu.fn_loc(f))
         return
     bp, ix, n, stack = dst[0]
-    if len(stack) == 3:
-        ya, xa, ca = (('sym', loops[v]['name']) for v in stack)
-        want_ix = Poly.atom(xa) * N + Poly.atom(ca)
-        if bp[2] + ix != want_ix:
-            b = bounds_over(bp[2] + ix, [(xa, sx), (ca, Poly.const(N))])
-            ctx.violation(R, inst, 'output index is `%s`; required N_COMP*x + c = %s so that the %d*sizeX elements of the row '
-                          'are each written once%s' % (show(bp[2] + ix), show(want_ix), N,
-                                                       ' (range [%s, %s])' % (show(b[0]), show(b[1])) if b else ''),
-                          tu.loc(n), key=keyb + 'output-index')
+    try:
+        nest = loop_nest(stack)
+    except Undecided as u:
+        ctx.undecided(R, inst, 'store into the row buffer: %s' % u, tu.loc(n))
+        return
+    span = nest['span']
+    if span is None:
+        if pv[0] == 'array' or abytes != want_bytes:
+            ctx.violation(R, inst, 'the row buffer holds `%s` bytes; a row needs N_COMP*sizeX*sizeof(COMP_T) = %s'
+                          % (show(abytes), show(want_bytes)), tu.fn_loc(f), key=keyb + 'row-buffer-size')
             good = False
+        per_flush = want_bytes
+        flush_depth = 1
+        xlimit = sx
     else:
-        ctx.undecided(R, inst, 'store into the row buffer is not inside the y/x/c loop nest', tu.loc(n))
+        S = loops[nest['vid']]['step']
+        need = N * S * csz
+        if abytes.const_value() is None or abytes.const_value() < need:
+            ctx.violation(R, inst, 'the staging buffer holds `%s` bytes; a span of %d pixels needs N_COMP*%d*sizeof(COMP_T) = %d'
+                          % (show(abytes), S, S, need), tu.fn_loc(f), key=keyb + 'row-buffer-size')
+            good = False
+        per_flush = Poly.atom(span) * (N * csz)
+        flush_depth = 2
+        xlimit = Poly.const(S)
+    xa, ca = nest['x'], nest['c']
+    want_ix = Poly.atom(xa) * N + Poly.atom(ca)
+    if bp[2] + ix != want_ix:
+        b = bounds_over(bp[2] + ix, [(xa, xlimit), (ca, Poly.const(N))])
+        ctx.violation(R, inst, 'output index is `%s`; required N_COMP*x + c = %s so that the elements of the row buffer are each '
+                      'written once%s' % (show(bp[2] + ix), show(want_ix),
+                                         ' (range [%s, %s])' % (show(b[0]), show(b[1])) if b else ''),
+                      tu.loc(n), key=keyb + 'output-index')
+        good = False
+    if nest['ycount'] != sy or nest['xcount'] != sx or nest['ccount'] != Poly.const(N):
+        ctx.violation(R, inst, 'the stores run over %s x %s x %s; required sizeY x sizeX x N_COMP'
+                      % (show(nest['ycount']), show(nest['xcount']), show(nest['ccount'])), tu.loc(n), key=keyb + 'loop-range')
         good = False
     if len(fwrites) != 1:
         ctx.undecided(R, inst, 'expected one fwrite, found %d' % len(fwrites), tu.fn_loc(f))
@@ -451,17 +627,27 @@ def check_write_image(ctx, tu, f):
         ctx.undecided(R, inst, 'fwrite arguments have no normal form', tu.loc(fw))
         good = False
     else:
-        if not (fp[0] == 'ptr' and fp[1] == bufname and fp[2] == Poly.const(0)) or e1 * e2 != want_bytes:
-            ctx.violation(R, inst, 'fwrite emits `%s` bytes from %s+%s per row; required %s bytes from the start of the row buffer'
-                          % (show(e1 * e2), fp[1], show(fp[2]), show(want_bytes)), tu.loc(fw), key=keyb + 'row-bytes')
+        if not (fp[0] == 'ptr' and fp[1] == bufname and fp[2] == Poly.const(0)) or e1 * e2 != per_flush:
+            ctx.violation(R, inst, 'fwrite emits `%s` bytes from %s+%s per %s; required %s bytes from the start of the row buffer'
+                          % (show(e1 * e2), fp[1], show(fp[2]), 'row' if span is None else 'span', show(per_flush)), tu.loc(fw),
+                          key=keyb + 'row-bytes')
             good = False
-        if len(fstack) != 1 or loops[fstack[0]]['count'] != sy:
-            ctx.violation(R, inst, 'fwrite is executed inside %d loop(s); required once per row (inside the y loop only)'
-                          % len(fstack), tu.loc(fw), key=keyb + 'row-bytes-per-row')
+        if list(fstack) != list(stack[:flush_depth]):
+            ctx.violation(R, inst, 'fwrite is executed inside %d loop(s); required once per %s (directly inside the %s loop)'
+                          % (len(fstack), 'row' if span is None else 'span', 'y' if span is None else 'span'), tu.loc(fw),
+                          key=keyb + 'row-bytes-per-row')
             good = False
+        else:
+            # the flush must come after the stores of the same row / span
+            par = loops[stack[flush_depth - 1]]['node']
+            order = [x.get('id') for x in tu.walk(par)]
+            if fw['id'] in order and n['id'] in order and order.index(fw['id']) < order.index(n['id']):
+                ctx.violation(R, inst, 'fwrite precedes the conversion of the row it writes', tu.loc(fw), key=keyb + 'row-bytes-order')
+                good = False
     if good:
-        ctx.ok(R, inst, 'source = pixel[(%s)*sizeX + x] component %s in [0,%d); output index N*x+c; %s bytes per row'
-               % ('sizeY-1-y' if flip else 'y', '3' if False else 'channel(c)', P, show(want_bytes)), tu.fn_loc(f))
+        ctx.ok(R, inst, 'source = pixel[(%s)*sizeX + x] component channel(c) in [0,%d); output index N*x+c; %s bytes per %s'
+               % ('sizeY-1-y' if flip else 'y', P, show(per_flush), 'row' if span is None else 'span of min(sizeX-x0,%d) pixels'
+                  % loops[nest['vid']]['step']), tu.fn_loc(f))
 
 
 # =====================================================================================================
@@ -998,6 +1184,19 @@ class JsonFlow:
                     self.report(f, 'skeleton', 'run-time text `%s` is emitted outside a JSON string' % tu.show(opnd), n, at, pred)
                     return [BAD]
                 return r
+        if k in ('CallExpr', 'CXXMemberCallExpr') and tu.sd(n).get('q', '').split('::')[-1] != 'operator<<':
+            sd0, obj0, args0 = tu.call_parts(n)
+            pos = [i for i, a in enumerate(args0) if tu.ref_decl(tu.strip(a, casts=True)) == stream_id]
+            if pos:
+                callee = tu.callee_fn(n)
+                if callee is None or tu.cfg(callee) is None or depth >= 4 or pos[0] >= len(callee.get('params', [])):
+                    self.undec.setdefault('the stream is handed to `%s`, whose body is not available' % tu.show(n), n)
+                    return [BAD]
+                outs = self.run_fn(callee, callee['params'][pos[0]]['id'], st, depth + 1)
+                if BAD in outs:
+                    self.report(f, 'helper', 'the helper %s called here breaks the JSON skeleton (see its own report)' % callee['q'],
+                                n, at, pred)
+                return list(outs) or [st]
         if k == 'CXXMemberCallExpr':
             sd, obj, args = tu.call_parts(n)
             nm = sd.get('q', '').split('::')[-1]
@@ -1408,83 +1607,162 @@ def range_init(tu, n):
     return (ks[0] if ks else None), loopvar, body
 
 
+def loop_kind(tu, range_expr):
+    ct = tu.sd(tu.strip(range_expr)).get('ct', '') if range_expr is not None else ''
+    t = re.sub(r'\bconst\s+', '', ct).replace('&', '').strip()
+    if range_expr is not None and tu.member_of_this(range_expr) == 'threadTrace':
+        return 'threads'
+    if re.match(r'^std::(unordered_map|map)<std::thread::id,', t):
+        return 'threads'
+    if re.match(r'^std::(list|vector|deque)<std::vector<rkcommon::tracing::TraceEvent\b', t):
+        return 'chunks'
+    if re.match(r'^std::vector<rkcommon::tracing::TraceEvent\b', t):
+        return 'events'
+    return None
+
+
 def check_iteration(ctx, tu, f, R):
+    """saveLog, with the tracing helpers it calls expanded at their call sites: thread loop > chunk loop > event loop,
+    each ranging over the element of the enclosing one; the stack of open begin events outlives the chunk loop"""
     inst = 'TraceRecorder::saveLog iteration'
     keyb = '%s|%s|TraceRecorder::saveLog|' % (R, tu.fn_file(f))
-    loops = []
+    ev_loops, stacks, other_loops, notes = [], [], [], []
 
-    def find(n, stack):
-        if n.get('kind') == 'CXXForRangeStmt':
-            loops.append((n, list(stack)))
-            stack = stack + [n]
-        for c in n.get('inner', ()):
-            if isinstance(c, dict) and c.get('kind'):
-                find(c, stack)
-
-    find(tu.body(f), [])
-    chain = None
-    for n, st in loops:
-        if len(st) == 2:
-            chain = st + [n]
-    if chain is None:
-        ctx.violation(R, inst, 'expected three nested range-for loops (threads, chunks, events); found nesting depths %s'
-                      % sorted({len(s) + 1 for _, s in loops}), tu.fn_loc(f), key=keyb + 'loop-nest')
-        return
-    (r1, v1, b1), (r2, v2, b2), (r3, v3, b3) = (range_init(tu, x) for x in chain)
-    good = True
-    if r1 is None or tu.member_of_this(r1) != 'threadTrace':
-        ctx.violation(R, inst, 'the outer loop ranges over `%s`; required the registry threadTrace' % tu.show(r1), tu.loc(chain[0]),
-                      key=keyb + 'outer-range')
-        good = False
-    # middle: <v1>.second->events
-    ok2 = False
-    e = tu.strip(r2) if r2 is not None else None
-    if e is not None and e.get('kind') == 'MemberExpr' and e.get('name') == 'events':
+    def refs(e, env, depth=0):
+        """decl ids an expression depends on, looking through helper parameters and local aliases"""
+        out = set()
+        if e is None or depth > 6:
+            return out
         for x in tu.walk(e):
-            if x.get('kind') == 'DeclRefExpr' and x.get('referencedDecl', {}).get('id') == v1['id']:
-                ok2 = True
-    if not ok2:
-        ctx.violation(R, inst, 'the middle loop ranges over `%s`; required the chunk list of the current thread' % tu.show(r2),
-                      tu.loc(chain[1]), key=keyb + 'middle-range')
-        good = False
-    if r3 is None or tu.ref_decl(r3) != v2['id']:
-        ctx.violation(R, inst, 'the inner loop ranges over `%s`; required the current chunk' % tu.show(r3), tu.loc(chain[2]),
-                      key=keyb + 'inner-range')
-        good = False
-    # skips inside the event loop
-    def skips(n, conds):
+            if x.get('kind') == 'DeclRefExpr':
+                did = x.get('referencedDecl', {}).get('id')
+                if did in env:
+                    arg, env2 = env[did]
+                    out |= refs(arg, env2, depth + 1)
+                    continue
+                out.add(did)
+                vd = tu.node(did)
+                if vd is not None and vd.get('kind') == 'VarDecl' and tu.kids(vd) and not vd.get('name', '').startswith('__'):
+                    out |= refs(tu.kids(vd)[0], env, depth + 1)
+        return out
+
+    def walk(n, lctx, fn, env, depth):
         k = n.get('kind')
-        if k in ('BreakStmt', 'ContinueStmt', 'ReturnStmt', 'GotoStmt'):
-            yield n, list(conds)
+        if k == 'CXXForRangeStmt':
+            r, lv, body = range_init(tu, n)
+            kind = loop_kind(tu, r)
+            entry = {'kind': kind, 'var': lv['id'] if lv else None, 'node': n, 'fn': fn, 'range': r, 'env': env, 'body': body}
+            if kind == 'events':
+                ev_loops.append((entry, list(lctx)))
+            # the range / iterator declarations are not part of the body
+            if body is not None:
+                walk(body, lctx + [entry], fn, env, depth)
             return
-        if k in ('ForStmt', 'WhileStmt', 'DoStmt', 'CXXForRangeStmt', 'SwitchStmt', 'LambdaExpr'):
+        if k in ('ForStmt', 'WhileStmt', 'DoStmt'):
+            other_loops.append((n, list(lctx)))
+            entry = {'kind': 'other', 'var': None, 'node': n, 'fn': fn}
+            for c in n.get('inner', ()):
+                if isinstance(c, dict) and c.get('kind'):
+                    walk(c, lctx + [entry], fn, env, depth)
             return
-        if k == 'IfStmt':
-            ks = [c for c in n.get('inner', ()) if isinstance(c, dict) and c.get('kind')]
-            for c in ks[1:]:
-                yield from skips(c, conds + [ks[0]])
+        if k == 'LambdaExpr':
+            notes.append('a lambda inside saveLog is not followed')
             return
+        if k == 'VarDecl' and re.search(r'std::stack<.*TraceEvent', n.get('type', {}).get('qualType', '')):
+            stacks.append((n, list(lctx), fn))
+        if k in ('CallExpr', 'CXXMemberCallExpr'):
+            callee = tu.callee_fn(n)
+            if callee is not None and callee['q'].startswith(TR) and tu.body(callee) is not None and depth < 4 and \
+                    callee['id'] != fn['id']:
+                args = tu.call_parts(n)[2]
+                env2 = dict(env)
+                for p_, a in zip(callee.get('params', []), args):
+                    env2[p_['id']] = (a, env)
+                walk(tu.body(callee), lctx, callee, env2, depth + 1)
         for c in n.get('inner', ()):
             if isinstance(c, dict) and c.get('kind'):
-                yield from skips(c, conds)
+                walk(c, lctx, fn, env, depth)
 
-    for sk, conds in skips(b3, []):
-        stack_empty = False
-        for c in conds:
-            for x in tu.walk(c):
-                if x.get('kind') == 'CXXMemberCallExpr' and tu.sd(x).get('q', '').startswith('std::stack') and \
-                        tu.sd(x).get('q', '').endswith('::empty'):
-                    stack_empty = True
-        if not stack_empty:
-            ctx.violation(R, inst, '`%s` leaves the event loop body under `%s`: recorded events are dropped from the log'
-                          % (sk.get('kind'), ' && '.join(tu.show(c) for c in conds) or 'no condition'), tu.loc(sk),
-                          key=keyb + 'event-skipped')
+    walk(tu.body(f), [], f, {}, 0)
+    good = True
+    if not ev_loops:
+        ctx.undecided(R, inst, 'no range-for over the events of a chunk was found in saveLog or the helpers it calls', tu.fn_loc(f))
+        return
+    for entry, lctx in ev_loops:
+        kinds = [l['kind'] for l in lctx]
+        loc = tu.loc(entry['node'])
+        if 'threads' not in kinds or 'chunks' not in kinds or kinds.index('threads') > kinds.index('chunks'):
+            ctx.undecided(R, inst, 'the event loop is not nested in a thread loop and a chunk loop (enclosing loops: %s)'
+                          % (kinds or 'none'), loc)
             good = False
+            continue
+        th = [l for l in lctx if l['kind'] == 'threads'][-1]
+        ch = [l for l in lctx if l['kind'] == 'chunks'][-1]
+        if th['range'] is None or tu.member_of_this(th['range']) != 'threadTrace':
+            ctx.violation(R, inst, 'the thread loop ranges over `%s`; required the registry threadTrace' % tu.show(th['range']),
+                          tu.loc(th['node']), key=keyb + 'outer-range')
+            good = False
+        chr_ = tu.strip(ch['range'])
+        if th['var'] not in refs(ch['range'], ch['env']) or chr_ is None or chr_.get('kind') != 'MemberExpr' or \
+                chr_.get('name') != 'events':
+            # a helper may receive the list itself: then the argument at the call site is what must name the thread
+            if th['var'] not in refs(ch['range'], ch['env']):
+                ctx.violation(R, inst, 'the chunk loop ranges over `%s`, which is not the chunk list of the current thread'
+                              % tu.show(ch['range']), tu.loc(ch['node']), key=keyb + 'middle-range')
+                good = False
+        if ch['var'] not in refs(entry['range'], entry['env']) or \
+                tu.strip(entry['range']).get('kind') in ('CXXMemberCallExpr', 'CXXOperatorCallExpr'):
+            ctx.violation(R, inst, 'the event loop ranges over `%s`; required the current chunk' % tu.show(entry['range']), loc,
+                          key=keyb + 'inner-range')
+            good = False
+
+        # skips inside the event loop
+        def skips(n, conds):
+            k = n.get('kind')
+            if k in ('BreakStmt', 'ContinueStmt', 'ReturnStmt', 'GotoStmt'):
+                yield n, list(conds)
+                return
+            if k in ('ForStmt', 'WhileStmt', 'DoStmt', 'CXXForRangeStmt', 'SwitchStmt', 'LambdaExpr'):
+                return
+            if k == 'IfStmt':
+                ks = [c for c in n.get('inner', ()) if isinstance(c, dict) and c.get('kind')]
+                for c in ks[1:]:
+                    yield from skips(c, conds + [ks[0]])
+                return
+            for c in n.get('inner', ()):
+                if isinstance(c, dict) and c.get('kind'):
+                    yield from skips(c, conds)
+
+        for sk, conds in skips(entry['body'], []):
+            stack_empty = False
+            for c in conds:
+                for x in tu.walk(c):
+                    if x.get('kind') == 'CXXMemberCallExpr' and tu.sd(x).get('q', '').startswith('std::stack') and \
+                            tu.sd(x).get('q', '').endswith('::empty'):
+                        stack_empty = True
+            if not stack_empty:
+                ctx.violation(R, inst, '`%s` leaves the event loop body under `%s`: recorded events are dropped from the log'
+                              % (sk.get('kind'), ' && '.join(tu.show(c) for c in conds) or 'no condition'), tu.loc(sk),
+                              key=keyb + 'event-skipped')
+                good = False
+    # the stack of open begin events must survive the boundary between two storage chunks of a thread
+    for vd, lctx, fn in stacks:
+        kinds = [l['kind'] for l in lctx]
+        if 'chunks' in kinds or 'events' in kinds:
+            where = 'in %s, which is called once per chunk' % fn['q'].replace(TR, '') if fn['id'] != f['id'] else 'inside the chunk loop'
+            ctx.violation(R, inst, 'the stack of open begin events `%s` is created %s: it starts empty at every storage chunk '
+                          '(every %s events), so an end event whose begin lies in the previous chunk is reported as unmatched, '
+                          'the rest of that chunk is dropped and no duration is computed' % (vd.get('name'), where, '8192'),
+                          tu.loc(vd['id']) if tu.sd(vd['id']) else tu.fn_loc(fn), key=keyb + 'begin-stack-per-chunk')
+            good = False
+    if not stacks:
+        notes.append('no begin stack found')
     if not check_locked(ctx, tu, f, R, quiet=True):
         good = False
     if good:
-        ctx.ok(R, inst, 'for thread in threadTrace / for chunk in thread.events / for event in chunk, under lock_guard(threadTraceMutex); '
-               'the only early exit is the unmatched-end error', tu.fn_loc(f))
+        ctx.ok(R, inst, 'for thread in threadTrace / for chunk in thread.events / for event in chunk (helpers expanded), under '
+               'lock_guard(threadTraceMutex); begin stack declared outside the chunk loop; the only early exit is the '
+               'unmatched-end error', tu.fn_loc(f))
 
 
 def check_locked(ctx, tu, f, R, quiet=False):
